@@ -23,7 +23,8 @@ LEVEL = "exploration"
 SHARDS = {"quick": 8, "thorough": 16}
 EXHAUSTIVE = {"quick": False, "thorough": False}
 RULE = ("cases = (list of chunks 1..256 bytes, 'no data' events with select "
-        "ready/not-ready between them, EOF); hypothesis-generated, thorough "
+        "ready/not-ready between them, write attempts by the host between "
+        "reads incl. ones failing with EPIPE, EOF); hypothesis-generated, thorough "
         "adds every stream of length<=7 over {a,\\n} x every composition into "
         "chunks x {no wait, wait-not-ready, wait-ready} before each chunk and "
         "an atheris campaign; non-trivial = a line spanning >=3 chunks, or >=2 "
@@ -34,6 +35,9 @@ ASSUMPTIONS = [
     "doubles with the semantics of a non-blocking socket file: read(n) -> "
     "bytes (<=n), None when no data yet, b'' at EOF",
     "read() never returns more than the requested 256 bytes",
+    "write attempts between reads (event 'x'), also ones that fail with "
+    "EPIPE, do not release the reader from delivering what the socket still "
+    "returns: 'no byte is lost' is read as covering every byte read() hands over",
 ]
 
 
@@ -49,6 +53,8 @@ class _Script:
         self.pending_ready = False
         self.waits_consumed = 0
         self.reads = 0
+        self.deferred = []        # write attempts met while reading: (fails?)
+        self.fail_next_write = False
 
     def read(self, n):
         self.reads += 1
@@ -57,6 +63,14 @@ class _Script:
         if self.i >= len(self.events):
             return b""
         kind, val = self.events[self.i]
+        while kind == "x":
+            # a write attempt scheduled here: carried out by the harness as
+            # soon as the current readline() call has returned
+            self.deferred.append(bool(val))
+            self.i += 1
+            if self.i >= len(self.events):
+                return b""
+            kind, val = self.events[self.i]
         if kind == "d":
             if len(val) > n:
                 raise HarnessError("chunk larger than requested size")
@@ -81,6 +95,9 @@ class _FakeFile:
         return self._s.read(n)
 
     def write(self, data):
+        if self._s.fail_next_write:
+            self._s.fail_next_write = False
+            raise BrokenPipeError(32, "Broken pipe")
         return len(data)
 
     def flush(self):
@@ -138,7 +155,23 @@ def run_device(events):
         results = []
         limit = 2 * len(events) + 10 + sum(
             v.count(b"\n") for k, v in events if k == "d")
+        limit += sum(1 for k, _ in events if k == "x")
         for _ in range(limit):
+            while script.i < len(script.events) and script.events[script.i][0] == "x":
+                script.deferred.append(bool(script.events[script.i][1]))
+                script.i += 1
+            for fails in script.deferred:
+                # the host writes while input is still arriving; a failed write
+                # (peer reset on send) must not lose what was already received
+                script.fail_next_write = fails
+                try:
+                    dev.write(b"M105\n")
+                    if fails:
+                        raise Violation("write() on a broken pipe did not raise")
+                except devmod.DeviceError:
+                    if not fails:
+                        raise Violation("write() raised DeviceError on a healthy socket")
+            del script.deferred[:]
             r = dev.readline()
             results.append(r)
             if r is None:
@@ -150,9 +183,11 @@ def run_device(events):
 def oracle(events):
     stream = b"".join(v for k, v in events if k == "d")
     nwaits = sum(1 for k, _ in events if k == "w")
+    if any(k == "x" for k, _ in events):
+        pass
     try:
         results, script, connected_after = run_device(events)
-    except HarnessError:
+    except (HarnessError, Violation):
         raise
     except Exception as e:  # the reader must not crash on any fragmentation
         raise Violation(f"readline raised {type(e).__name__}: {e}")
@@ -191,6 +226,8 @@ def classify(events):
     wait_in_line = False
     inside = False
     for k, v in events:
+        if k == "x":
+            continue
         if k == "w":
             if inside:
                 wait_in_line = True
@@ -213,6 +250,10 @@ def classify(events):
         classes.append("wait_inside_line")
     if any(len(v) == 256 for k, v in events if k == "d"):
         classes.append("full_256_chunk")
+    if any(k == "x" for k, v in events):
+        classes.append("write_between_reads")
+    if any(k == "x" and v for k, v in events):
+        classes.append("failed_write_between_reads")
     return sorted(set(classes))
 
 
@@ -252,6 +293,10 @@ def strategy():
         st.tuples(st.just("d"), chunk),
         st.tuples(st.just("d"), chunk),
         st.tuples(st.just("w"), st.booleans()),
+        st.tuples(st.just("d"), chunk),
+        st.tuples(st.just("d"), chunk),
+        st.tuples(st.just("w"), st.booleans()),
+        st.tuples(st.just("x"), st.sampled_from([False, False, True])),
     )
     return st.lists(ev, min_size=0, max_size=30).map(
         lambda l: [list(e) for e in l])
@@ -299,7 +344,9 @@ def run_shard(ctx):
         events = to_events(case)
         cl = classify(events)
         oracle(events)
-        ctx.case(case, nontrivial=bool(cl), classes=cl, steps=len(events))
+        ctx.case(case, nontrivial=bool(set(cl) - {"write_between_reads",
+                                                   "failed_write_between_reads"}),
+                 classes=cl, steps=len(events))
 
     run_hypothesis(ctx, strategy(), body, n)
     _exhaustive(ctx, 5 if ctx.tier == "quick" else 7)
